@@ -14,22 +14,22 @@ CHECKS = {
 }
 CHECKS["C03"] = ("property-based testing (proptest) + coverage-guided libFuzzer campaign with the same oracle (thorough tier): generated configurations, invariant over the returned Solution and the call log of an instrumented IVP",
          "Generated search over problems x spans (1e-11..1e6, both directions, infinite with terminal event) x six methods x first_step/max_step/t_eval/dense/events/max_steps combinations; every ode/events/jac call time is recorded by an instrumented IVP and the status<->coverage equivalences are evaluated on each run.",
-         "Time slack 4 ulp; 'xend to rounding' = 32 ulp; 8% of the cases with a right-hand side turning non-finite; panics/hangs are owned by C04.", "DESIGN.md §4 C03")
-CHECKS["C12"] = ("metamorphic property-based testing (proptest): plain run vs the 7 option subsets and a repeat; bit-identity of samples, statistics and a hash of every right-hand-side argument",
+         "Time slack 4 ulp; 'xend to rounding' = 32 ulp; spans from 2e-15 to 1e6 and 8..1e5 ulps long at |x0| up to 1e12; 8% of the cases with a right-hand side turning non-finite; panics/hangs are owned by C04.", "DESIGN.md §4 C03")
+CHECKS["C12"] = ("metamorphic property-based testing (proptest): plain run vs the 7 option subsets, a repeat, and the same call on a fresh thread; bit-identity of samples, statistics and a hash of every right-hand-side argument",
          "Each generated case is solved under all subsets of {t_eval, dense_output, non-terminal events}; the instrumented IVP hashes the bits of every (t,y) passed to the right-hand side, so 'the stepper did not notice the observer' is decided exactly.",
          "Bit-identity; dense span end compared to 1e-12 + 4 ulp.", "DESIGN.md §4 C12")
-CHECKS["C18"] = ("property-based testing (proptest) against call counters of an instrumented IVP",
+CHECKS["C18"] = ("property-based testing with fault injection (proptest) against call counters of an instrumented IVP (solve_ivp and the low-level Radau/BDF builders)",
          "Generated problems/methods/tolerances/Jacobian sources; nfev, njev, naccpt, nstep compared with the calls actually observed (finite-difference evaluations separated by a flag set while the crate's default IVP::jac runs).",
          "One events() call per accepted step is used to count accepted steps (public hook).", "DESIGN.md §4 C18")
 CHECKS["C11"] = ("property-based testing (proptest): step sequence and first trial step observed through an instrumented IVP; budgeted run vs unbudgeted twin (bit-identical prefix)",
          "Generated slow problems where the controller wants steps longer than max_step; accepted-step lengths from the events hook, first trial step from recorded right-hand-side times, step budget by differential comparison with the unbudgeted run.",
          "Slack 1e-12 relative/absolute on step lengths; off-by-one tolerance in where solvers test the budget.", "DESIGN.md §4 C11")
-CHECKS["C19"] = ("stateful property-based testing (proptest): scripted callback histories (Interrupt / no-op / doubling at generated indices) against the undisturbed history of the same low-level solver",
+CHECKS["C19"] = ("stateful property-based testing (proptest): scripted callback histories (Interrupt / no-op / doubling / XOut answers at generated indices) against the undisturbed history of the same low-level solver",
          "Histories over all six low-level solvers with a recording SolOut: first-call/contiguity/interpolant-endpoint invariants on every callback, Interrupt stops without further evaluations (counted by the instrumented IVP), untouched ModifiedSolution is a bit-exact no-op, doubling a linear homogeneous state doubles everything after it bit-exactly for explicit methods.",
          "BDF (history restart) and implicit doubling only to tolerance; contiguity to 8 ulp.", "DESIGN.md §4 C19")
 CHECKS["C06"] = ("property-based testing (proptest): dense output vs the accepted-step grid and states observed through the events hook; generated interior / outside query points",
          "Generated problems (incl. mildly stiff ones for BDF order changes and Radau rejections), options and query points; the true step grid and states come from one events() call per accepted step, so span coverage, end-point reproduction, continuity across boundaries and error kinds are decided per step of every run.",
-         "Tolerances 1e-10(1+|y|) + 8 max|f| ulp(t); 'clearly outside' = 1e-9(1+|t|).", "DESIGN.md §4 C06")
+         "Tolerances 1e-10(1+|y|) + 8 max|f| ulp(t); 'clearly outside' = 1e-9 + 256 ulp(t); low-level runs whose callback answers XOut (dense output on demand) for the per-step interpolant.", "DESIGN.md §4 C06")
 CHECKS["C08"] = ("two-phase property-based testing (proptest): event roots placed relative to the plain run's step grid; validity predicate over every reported event",
          "Roots of 1..4 generated event functions are placed mid-step, 1e-13..1e-9 beside a step end, or several in one step; each reported event is checked for bracket membership, agreement with the dense solution, |g| against a Lipschitz-scaled root-finder bound, direction in integration order, ordering and shapes.",
          "Sampled Lipschitz constant (64 sub-intervals, x2); event functions with exact power-of-two factors 2^-1000..2^900, strictly positive ones, picosecond spans, zero-length run.", "DESIGN.md §4 C08")
@@ -51,13 +51,13 @@ CHECKS["C13"] = ("metamorphic property-based testing (proptest): time reflection
 CHECKS["C01"] = ("property-based testing (proptest) against closed-form exact solutions: tolerance ladders, per-component bounds, RK4 convergence order",
          "Problems are constructed from exact solutions (stacked closed-form blocks, time-warp, linear mixing) with an a-priori amplification bound kappa; every returned sample of every rung of a tolerance ladder is compared with the exact solution against C*kappa*naccpt*tolscale; decoupled problems pin per-component tolerances; RK4 is checked for fourth-order convergence; a third of the problems are posed in units of 2^-40..2^40; 1/13 of the cases are random dissipative vector fields against the harness's own reference integrator. Three genuine, unrepaired findings (K1 vanishing embedded error estimate, K2 interpolation inside coarse steps, K4 finite-difference Jacobian of a small state) are keyed by narrow diagnoses and excluded.",
          "C = 100 (ratio typically < 0.2, heavy tail: largest passing ratio 97 over 2e7 cases; the evidence reports the tail histogram and the case closest to the bound); Radau's documented internal tolerance transformation is modelled in the absolute-dominated mode.", "DESIGN.md §4 C01")
-CHECKS["C02"] = ("property-based testing (proptest) + exhaustive rooted-tree enumeration: Butcher weights extracted from the compiled steppers with a unit-vector right-hand side; local-error slopes; Pade approximant; polynomial quadrature; step-count scaling",
+CHECKS["C02"] = ("property-based testing (proptest) + exhaustive rooted-tree enumeration: Butcher weights extracted from the compiled steppers with a unit-vector right-hand side; local-error slopes; Pade approximant; Radau one-step vs the harness's own collocation solution (nonlinear problems); XOut / no-callback twin runs; polynomial quadrature; step-count scaling",
          "The stage weights the explicit steppers actually apply (one step, a clipped step, two consecutive steps, dense output on/off, generated x0 and h = +-2^k) are extracted exactly and checked against every rooted-tree order condition up to p (200 trees for DOP853); Radau is checked against the (2,3) Pade approximant over generated complex z; the embedded estimators through exact polynomial quadrature and tolerance scaling.",
          "Assumes the documented stage evaluation order; slope thresholds calibrated on the repaired tree.", "DESIGN.md §4 C02")
-CHECKS["C07"] = ("property-based testing (proptest) against exact solutions: convergence slope of the step interpolant's max-over-theta error; interior samples of full runs vs neighbouring step ends",
+CHECKS["C07"] = ("property-based testing (proptest) against exact solutions: convergence slope of the step interpolant's max-over-theta error; interior samples of full runs vs neighbouring step ends; XOut twin runs (bit-identical interpolants)",
          "Single steps from exact data with the interpolant probed on a theta grid under five refinements give the interpolation order; full runs of all six methods on general closed-form problems compare Solution::sol at generated interior positions of every step with the exact solution relative to the step-end errors.",
          "Slope thresholds calibrated on the repaired tree; steps with h*rate > 1 skipped in the full-run clause.", "DESIGN.md §4 C07")
-CHECKS["C14"] = ("property-based testing (proptest) against closed-form stiff problems; differential runs at kappa and kappa=1e2; Radau-vs-BDF agreement; linear invariants",
+CHECKS["C14"] = ("property-based testing (proptest) against closed-form stiff problems; differential runs at kappa and kappa=1e2 and from a shifted start time; Radau-vs-BDF agreement; linear invariants",
          "Stiff linear problems with exact solutions (triangular coupling up to kappa = 1e10, mixed basis up to 1e6) with O(1) initial transients, kinetics chains, Robertson and Van der Pol: Success, accuracy against the exact solution, step/evaluation counts compared with the same problem at kappa = 1e2, invariants, with analytic and finite-difference Jacobians.",
          "Mixed-basis family restricted to kappa <= 1e6, rtol >= 1e-6 (conditioning of the right-hand side itself); invariant limit includes the right-hand side's own rounding.", "DESIGN.md §4 C14")
 CHECKS["C15"] = ("differential / metamorphic property-based testing (proptest): equivalent formulations and storages of mass matrix and Jacobian, exact solutions for mass-matrix ODEs and index-1 DAEs",
